@@ -34,6 +34,10 @@ func runC07(e *Env) {
 	r.Rule("C07.R5", "absint", "frame length cannot wrap", 17)
 	r.Rule("C07.R6", "flows", "Run appends exactly the bytes read", 1)
 	r.Rule("C07.R7", "paths", "synchronous in-order hand-over; signals inline", 3)
+	r.Rule("C07.R9", "locks", "a frame is written to the socket in one critical section: the writers' lock is taken outside the partial-write loop", 1)
+	if e.want("C07.R9") {
+		c07WriteAtomic(e)
+	}
 	r.Rule("C07.R8", "absint+flows", "the sender's length header is what the receiver's framing reads back (all length classes); the configured size limit reaches the framing loop", 12)
 
 	pb := e.fn("C07.R1", "tcp/client.Session.processBuffer")
@@ -386,4 +390,56 @@ func c07Handover(e *Env, pb *ssa.Function) {
 		}
 		e.R.Check(okSend, rule, "tcp/client.Conn.pushToReceivedMessageQueue:sends-message", e.fpos(f), "the select sends the received message itself", "the queue send does not carry the received message")
 	}
+}
+
+// c07WriteAtomic: net.Conn.WriteWithContext may need several socket writes for one frame. Concurrent writers (responses from
+// handler goroutines, requests, pings) are serialised by c.lock; the lock must cover the whole loop, otherwise two frames
+// interleave on the stream and the peer's framing is lost. Decided: every socket write in the function's region happens with
+// c.lock held, and the acquisition that holds it lies outside every loop of the function.
+func c07WriteAtomic(e *Env) {
+	rule := "C07.R9"
+	f := e.fn(rule, "net.Conn.WriteWithContext")
+	if f == nil {
+		return
+	}
+	la := core.AnalyzeLocks(f)
+	lb := loopBlocks(f)
+	n := 0
+	bad := ""
+	core.Instrs(f, func(in ssa.Instruction) {
+		c, ok := in.(*ssa.Call)
+		if !ok || !c.Call.IsInvoke() || c.Call.Method.Name() != "Write" {
+			return
+		}
+		if _, fl, isF := core.FieldOf(derefLoad(c.Call.Value)); !isF || fl != "connection" {
+			return
+		}
+		n++
+		held := la.At(c)
+		var h *core.Held
+		for p, x := range held {
+			if strings.HasSuffix(p, ".lock") {
+				h = x
+			}
+		}
+		if h == nil || !h.Write {
+			bad = "the socket write at " + e.pos(c) + " is not under the writers' lock"
+			return
+		}
+		for site := range h.Sites {
+			// where the acquisition happens in terms of the function itself (a helper's Lock counts at the helper's call)
+			at := site
+			if site.Parent() != f {
+				for _, ch := range core.CallChains(f, site.Parent()) {
+					if len(ch) > 0 {
+						at = ch[0].(ssa.Instruction)
+					}
+				}
+			}
+			if at.Parent() == f && lb[at.Block()] {
+				bad = "the writers' lock is (re)acquired inside the partial-write loop (" + e.pos(site) + "): another writer's bytes can land between two parts of one frame"
+			}
+		}
+	})
+	e.R.Check(bad == "" && n >= 1, rule, "net.Conn.WriteWithContext:one-critical-section", e.fpos(f), fmt.Sprintf("%d socket write site(s), under c.lock acquired before the loop", n), bad)
 }
